@@ -204,7 +204,10 @@ def gen(tier, rng):
             if rng.random() < 0.25 and nd == 2:
                 t0, _ = _table(rng, shape[0])
                 t1, _ = _table(rng, shape[1])
-                tabs.append({"axis": [0, 1], "table": [t0, t1], "kind": "q2"})      # one meshed coordinate on both axes
+                if rng.random() < 0.5:
+                    tabs.append({"axis": [0, 1], "table": [t0, t1], "kind": "q2"})      # one meshed coordinate on both axes
+                else:
+                    tabs.append({"axis": [1, 0], "table": [t1, t0], "kind": "q2"})      # ... attached in descending axis order
             case.update({"shape": shape, "tabs": tabs,
                          "factor": [rng.choice([[1, 1], [2, 1], [3, 1], [3, 2], [1, 2]]) for _ in range(nd)],
                          "offset": [rng.choice([[0, 1], [1, 2], [1, 1], [1, 4]]) for _ in range(nd)],
